@@ -37,6 +37,19 @@ class UdpOrigin(threading.Thread):
                     return
                 continue          # an ICMP error reported on this socket is not a datagram
             self.rx.append((time.time(), d, a))
+            if d.startswith(b"burst "):
+                # "burst N": N datagrams of about 1000 bytes back to the sender, paced (a chatty origin)
+                def go(a=a, n=int(d.split()[1])):
+                    for i in range(n):
+                        if self.stopped:
+                            return
+                        try:
+                            self.sock.sendto(b"B%07d" % i + b"x" * 1000, a)
+                        except OSError:
+                            return
+                        time.sleep(0.0003)
+                threading.Thread(target=go, daemon=True).start()
+                continue
             try:
                 self.sock.sendto(d, a)
             except OSError:
@@ -66,7 +79,7 @@ class UdpWorld:
             {"name": "c_quic_dgram", "type": "quic", "server": LOOP, "port": p2l["quic"], "tls": {"insecure": True}, "inlineUdp": False},
             {"name": "c_socks5", "type": "socks", "server": LOOP, "port": p2l["socks"]},
         ]
-        self.socks, self.rev = {}, {}
+        self.socks, self.rev, self.http = {}, {}, {}
         l1, rules = [], []
         for pth in PATHS:
             self.socks[pth] = e2e.free_port()
@@ -74,7 +87,9 @@ class UdpWorld:
             l1.append({"name": "socks-" + pth, "type": "socks", "bind": "%s:%d" % (LOOP, self.socks[pth])})
             l1.append({"name": "revu-" + pth, "type": "reverse", "bind": "%s:%d" % (LOOP, self.rev[pth]), "protocol": "udp",
                        "target": "%s:%d" % (LOOP, self.origin.port)})
-            rules.append({"filter": "request.listener == \"socks-%s\" || request.listener == \"revu-%s\"" % (pth, pth), "target": pth})
+            self.http[pth] = e2e.free_port()
+            l1.append({"name": "http-" + pth, "type": "http", "bind": "%s:%d" % (LOOP, self.http[pth])})
+            rules.append({"filter": "request.listener == \"socks-%s\" || request.listener == \"revu-%s\" || request.listener == \"http-%s\"" % (pth, pth, pth), "target": pth})
         self.p1 = e2e.Proxy(binary, l1, conns, rules, metrics=True, name=name + "-entry", timeouts={"idle": 600, "udp": udp_timeout})
         self.p2.start()
         try:
@@ -143,3 +158,46 @@ class SocksUdpClient:
 
     def close(self):
         e2e.close_quiet(self.ctl, self.udp)
+
+
+def stalled_neighbour(w, pth, tag, burst=12000, stall=3.0):
+    """Session A: a client of the http listener's UDP mode (CONNECT + Proxy-Protocol: udp, frames inline on its TCP
+    connection) asks a chatty origin for `burst` datagrams and then does not read its connection.  Session B: a reverse-UDP
+    client through the same upstream path sends 5 datagrams before, while and after A is stalled and counts the echoes.
+    Returns dict(before, during, later, after): echoes out of 5."""
+    def rtt(t, n=5, timeout=1.0):
+        s_ = socket.socket(socket.AF_INET, socket.SOCK_DGRAM)
+        s_.bind((LOOP, 0))
+        s_.settimeout(timeout)
+        ok = 0
+        for i in range(n):
+            p_ = b"%s-%s-%d" % (tag, t, i)
+            try:
+                s_.sendto(p_, (LOOP, w.rev[pth]))
+                d, _ = s_.recvfrom(70000)
+                ok += d == p_
+            except (socket.timeout, OSError):
+                pass
+        s_.close()
+        return ok
+    out = {"path": pth, "before": rtt(b"b0")}
+    a = socket.socket()
+    a.setsockopt(socket.SOL_SOCKET, socket.SO_RCVBUF, 4096)
+    a.settimeout(5)
+    try:
+        a.connect((LOOP, w.http[pth]))
+        a.sendall(("CONNECT %s:%d HTTP/1.1\r\nProxy-Protocol: udp\r\nProxy-Channel: inline\r\n\r\n" % (LOOP, w.origin.port)).encode())
+        head = e2e.recv_until(a, b"\r\n\r\n")
+        out["a_established"] = head.startswith(b"HTTP/1.1 200")
+        body = b"burst %d" % burst
+        addr = b"\x01\x06" + socket.inet_aton(LOOP) + struct.pack(">H", w.origin.port)
+        a.sendall(b"RPFM" + struct.pack(">IHH", 0, len(addr), len(body)) + addr + body)
+        time.sleep(stall)
+        out["during"] = rtt(b"b1")
+        time.sleep(1.0)
+        out["later"] = rtt(b"b2")
+    finally:
+        e2e.close_quiet(a)
+    time.sleep(1.0)
+    out["after"] = rtt(b"b3")
+    return out
